@@ -110,7 +110,8 @@ CC == <<"clamp", "clamp">>
 BurnOne(cs, a, r, j) ==
     LET g == cs.geoms[j]
         mp == TLCEval(MParts(cs.tpl, CC, g))
-    IN  [cell \in DOMAIN r |-> LET st == StatusM(mp, Areal(g), a, cell)
+        ix == IF BoxLike(g) THEN BoxIdx(cs.tpl, CC, BoxOf(g)) ELSE <<>>           \* boxes: closed form (LawBoxIsCentreRule)
+    IN  [cell \in DOMAIN r |-> LET st == IF BoxLike(g) THEN BoxStatus(ix, a, cell) ELSE StatusM(mp, Areal(g), a, cell)
                                IN  IF st = "in" \/ (st = "either" /\ (a \/ ~Areal(g))) THEN Val(cs, j) ELSE r[cell]]
 Blank(cs) == [cell \in Grid(cs.tpl) |-> cs.fill]
 Raised(e) == [raised |-> e, dims |-> <<>>, tc |-> <<>>, fc |-> <<>>, cells |-> <<>>]
@@ -152,9 +153,10 @@ ImplRefinesReq ==
                     /\ res = ImplRun(cs, FALSE)                          \* the machine and its closed form agree
 ImplOnTemplateAxes == Terminal => RunHolds("DimsAndCoordsOfTemplate", Case, res, FALSE, <<>>)     \* the clause F15 breaks, on its own line
 
-(* ---- laws of the specification (evaluated once per call) ---- *)
+(* ---- laws of the specification (evaluated once per call, in the state after the length check) ---- *)
+LawAt == pc = "burn" /\ k = 1
 AxesOf(tp) == {TAxis(tp), FAxis(tp)}
-LawBin == pc = "check" => \A ax \in AxesOf(Case.tpl) : \A v \in Ticks(ax) :
+LawBin == LawAt => \A ax \in AxesOf(Case.tpl) : \A v \in Ticks(ax) :
     /\ (Coord(ax, 1) <= v /\ v <= Coord(ax, ax.n)) =>
           /\ BinClamp(ax, v) = (v - ax.a) \div ax.s                                        \* closed form of the lookup
           /\ Coord(ax, BinClamp(ax, v) + 1) <= v /\ v < Coord(ax, BinClamp(ax, v) + 1) + ax.s   \* the bin that contains v
@@ -162,18 +164,21 @@ LawBin == pc = "check" => \A ax \in AxesOf(Case.tpl) : \A v \in Ticks(ax) :
     /\ BinExtent(ax, v) <= BinClamp(ax, v)
     /\ (BinExtent(ax, v) # BinClamp(ax, v)) <=> Ambiguous(ax, v)
     /\ v >= Coord(ax, ax.n) + ax.s => \A r \in Readings : Bin(r, ax, v) = ax.n            \* beyond the last bin: all of it is covered
-\* for a box the centre rule on the mapped shape IS "from the bin of the start (incl.) to the bin of the end (excl.)"
-LawBoxIsCentreRule == pc = "check" => LET cs == Case IN \A j \in 1..NG(cs) : BoxLike(cs.geoms[j]) =>
-    \A rr \in RR : LET mp == TLCEval(MParts(cs.tpl, rr, cs.geoms[j]))  bc == BoxCells(cs.tpl, rr, BoxOf(cs.geoms[j])) IN
-        \A cell \in CellsOf(cs.tpl) : StatusM(mp, TRUE, FALSE, cell) = IF cell \in bc THEN "in" ELSE "out"
+\* for a box the centre rule on the mapped shape IS "from the bin of the start (incl.) to the bin of the end (excl.)",
+\* and the closed cells the mapped rectangle touches are BoxTouches
+LawBoxIsCentreRule == LawAt => LET cs == Case IN \A j \in 1..NG(cs) : BoxLike(cs.geoms[j]) =>
+    \A rr \in RRFor(cs.tpl, cs.geoms[j]) :
+        LET mp == TLCEval(MParts(cs.tpl, rr, cs.geoms[j]))  ix == BoxIdx(cs.tpl, rr, BoxOf(cs.geoms[j])) IN
+        \A cell \in CellsOf(cs.tpl) : /\ StatusM(mp, TRUE, FALSE, cell) = BoxStatus(ix, FALSE, cell)
+                                       /\ StatusM(mp, TRUE, TRUE, cell) = BoxStatus(ix, TRUE, cell)
 \* Cells is monotone in the box (one tick of growth on any side never loses a cell)
 Grow(b) == {<<Max(b[1] - 1, 0), b[2], b[3], b[4]>>, <<b[1], Max(b[2] - 1, 0), b[3], b[4]>>, <<b[1], b[2], b[3] + 1, b[4]>>, <<b[1], b[2], b[3], b[4] + 1>>}
-LawCellsMonotone == pc = "check" => LET cs == Case IN \A j \in 1..NG(cs) : BoxLike(cs.geoms[j]) =>
+LawCellsMonotone == LawAt => LET cs == Case IN \A j \in 1..NG(cs) : BoxLike(cs.geoms[j]) =>
     \A rr \in RR : \A b2 \in Grow(BoxOf(cs.geoms[j])) : BoxCells(cs.tpl, rr, BoxOf(cs.geoms[j])) \subseteq BoxCells(cs.tpl, rr, b2)
 \* a cell whose centre is inside is touched; the acceptance relation is never empty
-LawInIsTouched == pc = "check" => LET cs == Case IN \A j \in 1..NG(cs) : \A rr \in RR :
+LawInIsTouched == LawAt => LET cs == Case IN \A j \in 1..NG(cs) : \A rr \in RRFor(cs.tpl, cs.geoms[j]) :
     LET mp == TLCEval(MParts(cs.tpl, rr, cs.geoms[j])) IN
     \A cell \in CellsOf(cs.tpl) : StatusM(mp, Areal(cs.geoms[j]), FALSE, cell) = "in" => Touched(mp, cell)
-LawSatisfiable == (pc = "check" /\ LenOK(Case)) => LET cs == Case IN \A a \in BOOLEAN : LET tb == Tab(cs, a) IN
+LawSatisfiable == LawAt => LET cs == Case IN \A a \in BOOLEAN : LET tb == Tab(cs, a) IN
     \A cell \in CellsOf(cs.tpl) : Allowed(cs, tb, cell) # {}
 =============================================================================
